@@ -120,6 +120,13 @@ def finish (neg : Bool) (z : Nat) : Rounded :=
 def roundRat (num : Int) (den : Nat) : Rounded :=
   if den = 0 then .zeroDen else finish (decide (num < 0)) (roundMag num.natAbs den)
 
+/-- `float(i)` for an integer (`PyLong_AsDouble`): `roundRat i 1` without the "not a rational" stop;
+    `none` = the rounded value is `2^1024` or more in magnitude (Python: OverflowError) -/
+def floatOfInt (i : Int) : Option UInt64 :=
+  match finish (decide (i < 0)) (roundMag i.natAbs 1) with
+  | .ok w => some w
+  | _ => none
+
 /-- the value of a rounding result in the order of doubles (overflow = the infinities) -/
 def Rounded.ext : Rounded → Ext
   | .ok w => decode w
